@@ -182,8 +182,14 @@ def hpnames_obligations():
     return induction_obligations('L-HPNAMES', ['control.smt2'], '(define-fun-rec hpnames ', prop, fixed_vars=[('aa', 'TAL')])
 
 
+def ndepth_obligations():
+    def prop(name, call, P):
+        return '(>= %s 0)' % call
+    return induction_obligations('L-NDEPTH-NONNEG', ['control.smt2'], '(define-funs-rec ((ndk ', prop)
+
+
 def prove_clause_lemmas(timeout=20):
-    return smt.run_many(cnt_obligations() + literal_obligations() + hpnames_obligations(), timeout=timeout)
+    return smt.run_many(cnt_obligations() + literal_obligations() + hpnames_obligations() + ndepth_obligations(), timeout=timeout)
 
 
 def _block_text(spec_file, marker):
